@@ -351,6 +351,17 @@ func replaceEntities(b []byte, i int, entitiesMap map[string][]byte, revEntities
 			}
 		}
 
+		if len(r) == 1 && (r[0] >= '0' && r[0] <= '9' || r[0] >= 'a' && r[0] <= 'z' || r[0] >= 'A' && r[0] <= 'Z' || r[0] == '#' || r[0] == ';') {
+			// check that the replacement does not complete an unterminated character reference in front of it, e.g. &#x&#x41; => &#xA
+			k := i - 1
+			for 0 <= k && i-k <= MaxEntityLength+2 && (b[k] >= '0' && b[k] <= '9' || b[k] >= 'a' && b[k] <= 'z' || b[k] >= 'A' && b[k] <= 'Z' || b[k] == '#') {
+				k--
+			}
+			if 0 <= k && b[k] == '&' {
+				return b, j
+			}
+		}
+
 		copy(b[i:], r)
 		copy(b[i+len(r):], b[j+1:])
 		b = b[:len(b)-n+len(r)]
